@@ -502,4 +502,103 @@ Section AdjCore.
     - intros _. constructor; [exact L|constructor].
     - clear. generalize 0 as o. induction n as [|n IH]; intro o; cbn [seq map repeat]; constructor; [apply gather_length|apply IH].
   Qed.
+
+  (* ---------------------------------------------------------------- several operands, one result
+     (Concat, BatchConcat): the forward program assigns y[d] := x_k[s]; it is the union over
+     the operands k of "paste operand k" accumulation programs F k (lifted to operand k), and
+     the backward of operand k, Bk k, is the adjoint of pasting *)
+  Definition lookupN (fw : mov) (xs : list (list R)) (d : nat) : R :=
+    match find (fun e => fst e =? d) fw with
+    | Some e => nth (snd (snd e)) (nth (fst (snd e)) xs []) rO
+    | None => rO
+    end.
+  Definition gatherN (fw : mov) (n : nat) (xs : list (list R)) : list R := map (lookupN fw xs) (seq 0 n).
+  Lemma gatherN_length fw n xs : length (gatherN fw n xs) = n.
+  Proof. unfold gatherN. rewrite map_length, seq_length. reflexivity. Qed.
+
+  Lemma sum_over_sumR (h : nat -> R) {A} (g : A -> nat) (l : list A) :
+    sum_over R rO radd h (map g l) = sumR (map (fun e => h (g e)) l).
+  Proof. induction l as [|e l IH]; cbn [map sum_over sum_list fold_right]; [reflexivity|]. rewrite IH. reflexivity. Qed.
+
+  Lemma gatherN_dot fw n xs (gy : list R) : covers fw n -> length gy = n ->
+    dot gy (gatherN fw n xs)
+    = sumR (map (fun e => rmul (nth (fst e) gy rO) (nth (snd (snd e)) (nth (fst (snd e)) xs []) rO)) fw).
+  Proof.
+    intros Hc Hl. unfold gatherN. subst n.
+    pose proof (dot_sum_over R rO radd rmul (lookupN fw xs) gy 0) as H. idot_in H. rewrite H.
+    rewrite <- (sum_over_perm R rO radd r_add_comm r_add_assoc _ _ _ Hc), sum_over_sumR.
+    apply sumR_ext. intros e He. rewrite Nat.sub_0_r. f_equal. unfold lookupN.
+    rewrite (find_unique fw e (ProofsGather.covers_NoDup _ _ Hc) He). reflexivity.
+  Qed.
+
+  Lemma sumR_flat_map {A B} (h : B -> R) (g : A -> list B) l :
+    sumR (map h (flat_map g l)) = sumR (map (fun k => sumR (map h (g k))) l).
+  Proof.
+    induction l as [|a l IH]; cbn [flat_map map]; [reflexivity|].
+    rewrite map_app, (sum_list_app R rO radd r_add_assoc r_add_0_l), IH. reflexivity.
+  Qed.
+  Lemma dots_map2 {A} (f g : A -> list R) l : dots (map f l) (map g l) = sumR (map (fun k => dot (f k) (g k)) l).
+  Proof. induction l as [|a l IH]; cbn [map OpFamily.dots sum_list fold_right]; [reflexivity|]. rewrite IH. reflexivity. Qed.
+  Lemma gather_sum_sumR q (a b : list R) :
+    gather_sum R rO radd rmul q a b = sumR (map (fun e => rmul (nth (snd e) a rO) (nth (fst e) b rO)) q).
+  Proof. induction q as [|[d s] q IH]; cbn [gather_sum map sum_list fold_right fst snd]; [reflexivity|]. rewrite IH. reflexivity. Qed.
+  Lemma map_nth_seq' {A} (l : list A) dflt : l = map (fun k => nth k l dflt) (seq 0 (length l)).
+  Proof.
+    apply (nth_ext _ _ dflt dflt); [rewrite map_length, seq_length; reflexivity|]. intros k Hk.
+    symmetry. rewrite (nth_indep (map (fun k => nth k l dflt) (seq 0 (length l))) dflt (nth 0 l dflt))
+      by (rewrite map_length, seq_length; exact Hk).
+    rewrite (map_nth (fun k => nth k l dflt)), seq_nth by exact Hk. reflexivity.
+  Qed.
+  Lemma Forall2_nth_error {A B} (P : A -> B -> Prop) l l' : Forall2 P l l' ->
+    forall k y, nth_error l' k = Some y -> exists x, nth_error l k = Some x /\ P x y.
+  Proof.
+    induction 1 as [|x y l l' Hxy _ IH]; intros [|k] y' Hk; try discriminate.
+    - injection Hk as <-. exists x. auto.
+    - apply IH. exact Hk.
+  Qed.
+  Lemma Forall2_length' {A B} (P : A -> B -> Prop) l l' : Forall2 P l l' -> length l = length l'.
+  Proof. induction 1; cbn [length]; congruence. Qed.
+  Lemma Forall2_map_seq {B} (P : list R -> B -> Prop) (f : nat -> list R) : forall (l' : list B) o,
+    (forall i y, nth_error l' i = Some y -> P (f (o + i)) y) -> Forall2 P (map f (seq o (length l'))) l'.
+  Proof.
+    induction l' as [|y l' IH]; intros o H; cbn [length seq map]; constructor.
+    - rewrite <- (Nat.add_0_r o). apply (H 0 y). reflexivity.
+    - apply IH. intros i y' Hi. replace (S o + i) with (o + S i) by lia. apply (H (S i)). exact Hi.
+  Qed.
+
+  Definition lift_acc (k : nat) (q : acc) : mov := map (fun e => (fst e, (k, snd e))) q.
+  Definition nary_desc (xs : list tshape) (sy : tshape) (ok : bool) (fw : mov) (Bk : nat -> list R -> list R) : opdesc :=
+    {| d_args := xs; d_rets := [sy]; d_ok := ok; d_nop := false;
+       d_fw := fun vs => [gatherN fw (tsize sy) vs];
+       d_jvp := fun vs dvs => [gatherN fw (tsize sy) dvs];
+       d_bw := fun vs ys gys => map (fun k => Bk k (hd [] gys)) (seq 0 (length xs)) |}.
+  Lemma nary_LA xs sy ok fw (F : nat -> acc) Bk :
+    (ok = true -> covers fw (tsize sy) /\ fw = flat_map (fun k => lift_acc k (F k)) (seq 0 (length xs)) /\
+       forall k sk, nth_error xs k = Some sk -> acc_in_bounds (F k) (tsize sy) (tsize sk) /\
+         adj_of (tsize sy) (tsize sk) (fun x => scatterR (F k) x (zeros (tsize sy))) (Bk k)) ->
+    desc_LA (nary_desc xs sy ok fw Bk).
+  Proof.
+    intros Hc Hok vs dvs gys Hx Hdx Hgy. cbn [nary_desc d_args d_rets d_ok d_nop d_fw d_jvp d_bw] in *.
+    destruct (Hc Hok) as (Hcov & Hfw & Hk). clear Hc.
+    apply F2_one in Hgy. destruct Hgy as (gy & -> & Hgy). cbn [hd]. unfold sized in Hgy.
+    assert (HK : length dvs = length xs) by (apply (Forall2_length' _ _ _ Hdx)).
+    assert (Hkk : forall k, In k (seq 0 (length xs)) -> exists sk, nth_error xs k = Some sk /\ length (nth k dvs []) = tsize sk).
+    { intros k Hin. apply in_seq in Hin. destruct (nth_error xs k) as [sk|] eqn:E; [|apply nth_error_None in E; lia].
+      exists sk. split; [reflexivity|]. destruct (Forall2_nth_error _ _ _ Hdx k sk E) as (x & Ex & Hs).
+      rewrite (nth_error_nth _ _ _ Ex). exact Hs. }
+    cbv zeta. split; [|split].
+    - cbn [OpFamily.dots]. rewrite (gatherN_dot fw (tsize sy) dvs gy Hcov Hgy).
+      rewrite (map_nth_seq' dvs []) at 1. rewrite HK, dots_map2. rewrite Hfw, sumR_flat_map.
+      transitivity (sumR (map (fun k => sumR (map (fun e : nat * (nat * nat) =>
+          rmul (nth (fst e) gy rO) (nth (snd (snd e)) (nth (fst (snd e)) dvs []) rO)) (lift_acc k (F k)))) (seq 0 (length xs)))); [|ring].
+      apply sumR_ext. intros k Hin. destruct (Hkk k Hin) as (sk & Esk & Hlen). destruct (Hk k sk Esk) as (Hb & Hadj).
+      destruct (Hadj gy (nth k dvs []) Hgy Hlen) as (E & _ & _). rewrite E, dot_comm.
+      pose proof (scatter_adjoint R rO radd rmul r_add_comm r_add_assoc r_add_0_l r_distr_r (F k) (nth k dvs []) (zeros (tsize sy)) gy) as H.
+      rewrite repeat_length, Hlen in H. idot_in H. rewrite H by auto. rewrite dot_zeros_l, gather_sum_sumR, r_add_0_l.
+      unfold lift_acc. rewrite map_map. cbn [fst snd]. apply sumR_ext. intros e _. ring.
+    - intros _. rewrite <- (Nat.add_0_l (length xs)). apply (Forall2_map_seq sized (fun k => Bk k gy) xs 0).
+      intros i sk Esk. cbn [Nat.add]. destruct (Hk i sk Esk) as (_ & Hadj).
+      destruct (Hadj gy (zeros (tsize sk)) Hgy (repeat_length _ _)) as (_ & A & _). exact A.
+    - constructor; [apply gatherN_length|constructor].
+  Qed.
 End AdjCore.
